@@ -385,8 +385,8 @@ def stack_jobs(ctx, spec, cfg, timeout=400, mem_mb=10000):
                      includes=[wd, H.HDIR], harness_bound=None, timeout=timeout, mem_mb=mem_mb, gen_file=g.cpath,
                      expect='witness' if w else 'proved',
                      meta=dict(engine='E4', entry=spec.name, config=cfg.name,
-                               bound='4 solver-chosen push/pop/begin operations, then 27 pushes (past YY_START_STACK_INCR) and 27 pops with symbolic conditions, optional underflow',
+                               bound='27 pushes (past YY_START_STACK_INCR) and 27 pops, 3 solver-chosen push/pop/begin operations, optional yylex_destroy() and reuse (non-reentrant), optional underflow',
                                flex_input=g.ltext, flex_args=g.args))
         jobs.append(j)
-    ctx.functions.update(['yy_push_state', 'yy_pop_state', 'yy_top_state'])
+    ctx.functions.update(['yy_push_state', 'yy_pop_state', 'yy_top_state', 'yylex_destroy', 'yy_init_globals'])
     return jobs, g
